@@ -144,3 +144,29 @@ C14_JOBS = [
          claims="the sse bodies are memcmp(a,b,s)==0 and memcmp(l,r,s) on exactly s bytes (libc memcmp trusted, uninterpreted)"),
 ]
 PROPS["C14"] = dict(level="other", jobs=C14_JOBS, trusted_base=COMMON_TRUST + MODEL_TRUST, assumptions=[], undecided=[], explanation="")
+
+
+# ===================================================================================== C09
+C09_JOBS = []
+for arch, vdef in ARCHS:
+    qu = arch_units(arch) + ["QuotedChar", "kQuoteTab", "kNeedEscaped", "DoEscape", "CopyAndGetEscapMask", "MOVE_N_CHARS", "Quote"]
+    def c09(id, harness, **kw):
+        d = dict(id="C09.%s@%s" % (id, arch), src="c09_quote.c", harness=harness, units=qu, defs=[vdef] + kw.pop("xdefs", []), arch=arch, route="L", timeout=900)
+        d.update(kw)
+        return d
+    C09_JOBS.append(c09("CopyAndGetEscapMask", "h_CopyAndGetEscapMask", function="CopyAndGetEscapMask",
+        claims="all VEC_LEN-byte blocks: copies exactly VEC_LEN bytes; mask bit i iff byte i is a quote, backslash or < 0x20; reads/writes exactly VEC_LEN bytes"))
+    for path, xd in (("production", []), ("sanitize", ["SANITIZE_PATH"])):
+        C09_JOBS.append(c09("Quote.%s" % path, "h_Quote", function="Quote (%s path)" % path, xdefs=xd + ["CONTRACT_ONLY_DoEscape"], route="U", enforce="Quote", replace=["DoEscape", "memcpy"],
+            loop_contracts=True, expect_loops=2, replay="quote",
+            claims="any nb <= 2^31-1, " + ("string at any offset of a whole-page object, ending up to its last byte" if not xd else "source heap block of exactly nb bytes") +
+                   ": no read outside the source object, writes only inside the 6*nb+35 reservation, result length in [nb+2, 6*nb+2], delimited by quotes; DoEscape preconditions hold at both call sites"))
+        C09_JOBS.append(c09("Quote.exact.%s" % path, "h_Quote_exact", function="Quote (%s path)" % path, xdefs=xd, route="B(nb<=2*VEC_LEN+8)", bound="nb <= 2*VEC_LEN+8",
+            unwind=2 * (32 if arch == "avx2" else 16) + 10, replay="quote",
+            claims="bounded: output bytes and length equal the RFC 8259 quoting of exactly the nb source bytes, for every content, every length up to two blocks + 8, every page offset; bytes behind the string unconstrained"))
+C09_JOBS.append(dict(id="C09.tables", src="c09_quote.c", harness="h_quote_tables", units=C09_JOBS[0]["units"], defs=["VEC_LEN=32"], arch="avx2", route="L", function="kQuoteTab / kNeedEscaped",
+    replay="quotetab", claims="all 256 bytes: need-escape flag, escape length (0/2/6) and escape text equal RFC 8259 section 7; the 8 bytes DoEscape copies are readable"))
+C09_JOBS.append(dict(id="C09.DoEscape", src="c09_quote.c", harness="h_DoEscape", units=C09_JOBS[0]["units"], defs=["VEC_LEN=32"], arch="avx2", route="U", function="DoEscape",
+    enforce="DoEscape", loop_contracts=True, expect_loops=1,
+    claims="any nb >= 1 on exact-size blocks: reads only [src, src+nb), writes only [dst, dst+6*nb+2); consumes k >= 1 bytes, emits 2k..6k bytes, stops at the first byte needing no escape"))
+PROPS["C09"] = dict(level="other", jobs=C09_JOBS, trusted_base=COMMON_TRUST + MODEL_TRUST, assumptions=[], undecided=[], explanation="")
